@@ -159,13 +159,23 @@ Lemma static_join sep parts : forallb static sep = true -> Forall (fun p => fora
   forallb static (join sep parts) = true.
 Proof. apply forallb_join. Qed.
 
+Lemma static_ones k : forallb static (ones k) = true.
+Proof. apply static_join; [reflexivity|]. apply forall_repeat. reflexivity. Qed.
+Lemma static_join_map {A} (f : A -> list tok) l : (forall a, forallb static (f a) = true) ->
+  forallb static (join [TComma] (map f l)) = true.
+Proof.
+  intros H. apply static_join; [reflexivity|]. apply Forall_forall. intros it Hit.
+  apply in_map_iff in Hit as (i & <- & _). apply H.
+Qed.
+
 Lemma empty_expr_static d k E : visit_empty_set_expr d k = Ok E -> forallb static E = true.
 Proof.
   unfold visit_empty_set_expr. destruct (d_empty d); intros H; inversion H; subst; clear H;
-    rewrite ?forallb_app; cbn [forallb static andb one_ne_one]; rewrite ?andb_true_r; rewrite ?andb_true_iff; repeat split;
-    try reflexivity;
-    try (apply static_join; [reflexivity|]; try (apply forall_repeat; reflexivity);
-         apply Forall_forall; intros it Hit; apply in_map_iff in Hit as (i & <- & _); reflexivity).
+    repeat (rewrite ?forallb_app; cbn [forallb static andb one_ne_one app]);
+    rewrite ?static_ones; cbn [andb];
+    rewrite ?(static_join_map (fun i => [TWord (W_IN_ i)])), ?(static_join_map (fun i => [TNum 1; TWord W_AS; TWord (W_IN_ i)])) by reflexivity;
+    try reflexivity.
+  apply andb_true_iff. split; [|reflexivity]. apply static_join; [reflexivity|]. apply forall_repeat. reflexivity.
 Qed.
 
 Lemma nulls_static k : forallb static (nulls k) = true.
@@ -176,7 +186,7 @@ Proof.
   unfold visit_empty_set_op_expr. destruct (d_empty_op_override d); [apply empty_expr_static|].
   destruct eo as [[|]|]; [| |apply empty_expr_static];
     intros H; inversion H; subst; clear H; destruct (Nat.ltb 1 k);
-    rewrite ?forallb_app; cbn [forallb static andb]; rewrite ?nulls_static; reflexivity.
+    repeat (rewrite ?forallb_app; cbn [forallb static andb app]); rewrite ?nulls_static; reflexivity.
 Qed.
 
 (* ---------------------------------------------------------------------------------------- *)
@@ -223,3 +233,236 @@ Qed.
 
 Lemma lhs_len_indep row l : length (lhs_vals row l) = length (lhs_vals (fun _ => SNull) l).
 Proof. now rewrite !lhs_vals_length. Qed.
+
+(* ---------------------------------------------------------------------------------------- *)
+(** * MAIN: bound execution of a compiled statement *)
+Lemma rows_ok_tuples k X ts : length X = k -> Forall (fun te => length te = k) ts -> rows_ok k X ts = true.
+Proof.
+  intros HX H. unfold rows_ok. rewrite HX, Nat.eqb_refl. cbn [andb].
+  apply forallb_forall. intros te Hin. rewrite Forall_forall in H. apply Nat.eqb_eq. now apply H.
+Qed.
+
+Lemma empty_pred d e row E :
+  consistent e = true -> lhs_ok (ie_left e) -> (1 <= type_count (ie_bind e))%nat ->
+  length (lhs_vals row (ie_left e)) = type_count (ie_bind e) ->
+  visit_empty_set_op_expr d (type_count (ie_bind e)) (bp_expand_op (ie_bind e)) = Ok E ->
+  good_pred (crender e row ([TLp] ++ E ++ [TRp])) (expected (ie_op e) (lhs_vals row (ie_left e)) []).
+Proof.
+  intros Hc Hl Hk HX HE.
+  cbn [map expected or_eq fold_right].
+  unfold visit_empty_set_op_expr in HE.
+  assert (Hsub : visit_empty_set_expr d (type_count (ie_bind e)) = Ok E ->
+            good_pred (crender e row ([TLp] ++ E ++ [TRp])) (match ie_op e with OIn => TF | ONotIn => not3 TF end)).
+  { intros HS.
+    pose proof (regular_pred e row E (type_count (ie_bind e)) [] Hl
+                  (fun rest => empty_set_expr_body d _ E rest Hk HS)) as G.
+    unfold rows_ok in G. rewrite HX, Nat.eqb_refl in G. specialize (G eq_refl).
+    destruct (ie_op e); exact G. }
+  unfold consistent in Hc. apply andb_true_iff in Hc as [Hc _].
+  destruct (d_empty_op_override d); [now apply Hsub|].
+  destruct (bp_expand_op (ie_bind e)) as [[|]|]; [| |now apply Hsub].
+  + apply andb_true_iff in Hc as [Ho Ht]. apply inop_eqb_eq in Ho. rewrite <- Ho.
+    inversion HE; subst E. apply (trick_in_pred e row _ Hl (eq_sym Ho) Hk HX).
+  + apply andb_true_iff in Hc as [Ho Ht]. apply inop_eqb_eq in Ho. rewrite <- Ho.
+    apply negb_true_iff in Ht.
+    inversion HE; subst E. apply (trick_not_in_pred e row _ Hl (eq_sym Ho) Ht Hk HX).
+Qed.
+
+Lemma wf_empty_arity e row : wf e [] = true ->
+  (1 <= type_count (ie_bind e))%nat /\ length (lhs_vals row (ie_left e)) = type_count (ie_bind e).
+Proof.
+  intros Hwf. destruct (wf_shape e [] Hwf) as [(_ & H1 & _ & H2)|(k & _ & Hk & H1 & _ & H2)].
+  - rewrite H2, lhs_len_indep, H1. split; lia.
+  - rewrite (H2 eq_refl), lhs_len_indep, H1. split; [exact Hk|reflexivity].
+Qed.
+
+Theorem bound_correct d p e vals row pop :
+  consistent e = true -> wf e vals = true -> empty_ok d e vals = true ->
+  exists x c', process (compile d p e) (ctx_others p) vals pop = Ok (x, c') /\
+    exec_sem row x = EOk (ctx_value p row (expected e.(ie_op) (lhs_vals row e.(ie_left)) (map value_row vals))).
+Proof.
+  intros Hc Hwf He.
+  pose proof (wf_lhs_ok e vals Hwf) as Hl.
+  destruct vals as [|v0 vals'].
+  - (* ---------- empty list ---------- *)
+    unfold empty_ok in He.
+    destruct (visit_empty_set_op_expr d (type_count (ie_bind e)) (bp_expand_op (ie_bind e))) as [E|] eqn:HE; [|discriminate].
+    assert (Hleep : leep d (ie_bind e) [] = Ok ([], E)) by (unfold leep; now rewrite HE).
+    destruct (process_fresh d p e [] [] E pop Hleep) as (c' & Hp).
+    eexists _, c'. split; [exact Hp|].
+    destruct (wf_empty_arity e row Hwf) as [Hk HX].
+    assert (Hclose : close row (ctx_others p ++ exp_params []) (pargs d []) E = Some E).
+    { unfold pargs. destruct (d_positional d); apply close_static; eapply empty_op_static; eauto. }
+    apply (exec_from_pred row d p e [] E E _ ltac:(constructor) Hclose).
+    now apply (empty_pred d e row E).
+  - (* ---------- non-empty list ---------- *)
+    set (vals := v0 :: vals') in *.
+    destruct (wf_shape e vals Hwf) as [(Hs & HX & Hb & _)|(k & Ht & Hk & HX & Hb & _)].
+    + (* scalars *)
+      pose proof (leep_scalar d (ie_bind e) vals ltac:(discriminate) Hs Hb) as Hleep. cbv zeta in Hleep.
+      set (ss := map (fun v => match v with VScalar s => s | VTuple _ => SNull end) vals) in *.
+      destruct (process_fresh d p e vals _ _ pop Hleep) as (c' & Hp).
+      eexists _, c'. split; [exact Hp|].
+      pose proof (close_bind_items row d (ctx_others p) (tu_scalar ss) (no_exp_others p) (nodup_tu_scalar ss)
+                    (tu_scalar ss) (incl_refl _)) as Hclose.
+      apply (exec_from_pred row d p e _ _ _ _ (nodup_tu_scalar ss) Hclose).
+      rewrite (all_scalar_rows vals Hs). fold ss. rewrite <- expected_sem.
+      apply (regular_pred e row (val_items (tu_scalar ss)) 1%nat (map (fun v => [v]) ss) Hl).
+      * intros rest. unfold val_items.
+        rewrite (p_inbody_items _ _ rest (scal_map_snd (tu_scalar ss))).
+        -- now rewrite tu_scalar_snd.
+        -- unfold tu_scalar, ss, vals. cbn [map enum_from]. discriminate.
+      * unfold rows_ok. rewrite lhs_len_indep, HX. cbn [Nat.eqb andb].
+        apply forallb_forall. intros r Hr. apply in_map_iff in Hr as (v & <- & _). reflexivity.
+    + (* tuples *)
+      pose proof (leep_tuple d (ie_bind e) vals k ltac:(discriminate) Ht (Hb ltac:(discriminate))) as Hleep.
+      cbv zeta in Hleep.
+      set (ts := map value_row vals) in *.
+      set (blks := blocks_from 1 ts) in *.
+      pose proof (all_tuple_len k vals Ht) as Hlen. fold ts in Hlen.
+      destruct (process_fresh d p e vals _ _ pop Hleep) as (c' & Hp).
+      eexists _, c'. split; [exact Hp|].
+      assert (Hclose : close row (ctx_others p ++ exp_params (concat blks)) (pargs d (concat blks))
+                         ((if d_tuple_in_values d then [TValues] else []) ++ bind_rows d blks)
+                       = Some ((if d_tuple_in_values d then [TValues] else []) ++ val_rows blks)).
+      { apply (close_app row _ [] _ _ (pargs d (concat blks))).
+        - apply close_static. now destruct (d_tuple_in_values d).
+        - apply (close_bind_rows row d (ctx_others p) (concat blks) (no_exp_others p) (nodup_blocks 1 ts) blks (incl_refl _)). }
+      apply (exec_from_pred row d p e _ _ _ _ (nodup_blocks 1 ts) Hclose).
+      rewrite <- expected_sem.
+      apply (regular_pred e row _ k ts Hl).
+      * intros rest. unfold val_rows.
+        rewrite <- (map_map (map (fun kv : key * sv => TVal (snd kv))) row_toks).
+        rewrite <- app_assoc.
+        rewrite (p_inbody_rows (d_tuple_in_values d) (map (map (fun kv : key * sv => TVal (snd kv))) blks) (map (map snd) blks) rest).
+        -- unfold blks. rewrite blocks_snd. f_equal. f_equal. f_equal.
+           unfold ts, vals. cbn [map hd]. inversion Hlen; subst. assumption.
+        -- clear. induction blks; cbn [map]; constructor; [apply scal_map_snd|assumption].
+        -- pose proof (blocks_nonempty 1 ts k Hk Hlen) as Hn. fold blks in Hn.
+           apply Forall_forall. intros t Hin. apply in_map_iff in Hin as (blk & <- & Hb').
+           rewrite Forall_forall in Hn. specialize (Hn blk Hb'). destruct blk; [congruence|discriminate].
+        -- unfold blks, ts, vals. cbn [map enum_from blocks_from]. discriminate.
+      * apply rows_ok_tuples; [now rewrite lhs_len_indep|exact Hlen].
+Qed.
+
+(* ---------------------------------------------------------------------------------------- *)
+(** * MAIN: literal_binds *)
+Definition lit_pre (p : position) : list tok :=
+  match p with
+  | PosBare => [] | PosCase => [TLp]
+  | PosAnd a _ => [TCol 0; TNe; TNum a; TAnd]
+  | PosOr a => [TCol 0; TEq; TNum a; TOr]
+  end.
+Definition lit_post (p : position) : list tok :=
+  match p with
+  | PosBare => [] | PosCase => [TRp]
+  | PosAnd _ b => [TAnd; TCol 0; TNe; TNum b]
+  | PosOr _ => []
+  end.
+
+Lemma literal_stmt_form d p e vals :
+  compile_literal_stmt d p e vals =
+  bind (leep_literal d (ie_bind e) vals) (fun repl =>
+  Ok (lit_pre p ++ render_binary e ([TLp] ++ repl ++ [TRp]) ++ lit_post p)).
+Proof.
+  unfold compile_literal_stmt, compile_literal.
+  destruct (leep_literal d (ie_bind e) vals) as [repl|]; [|reflexivity].
+  destruct p; cbn [bind lit_pre lit_post app]; rewrite ?app_nil_r; reflexivity.
+Qed.
+
+Lemma close_literal row p e repl : forallb static repl = true ->
+  close row [] [] (lit_pre p ++ render_binary e ([TLp] ++ repl ++ [TRp]) ++ lit_post p)
+  = Some (cctx_pre p row true ++ crender e row ([TLp] ++ repl ++ [TRp]) ++ cctx_post p row true).
+Proof.
+  intros Hs.
+  apply (close_app row [] [] _ _ []); [destruct p; reflexivity|].
+  apply (close_app row [] [] _ _ []); [|destruct p; reflexivity].
+  apply close_render. apply close_wrap. now apply close_static.
+Qed.
+
+Lemma exec_literal_from_pred row p e repl v : forallb static repl = true ->
+  good_pred (crender e row ([TLp] ++ repl ++ [TRp])) v ->
+  exec_literal row (lit_pre p ++ render_binary e ([TLp] ++ repl ++ [TRp]) ++ lit_post p) = EOk (ctx_value p row v).
+Proof.
+  intros Hs Hg. unfold exec_literal. rewrite (close_literal row p e repl Hs).
+  apply phrase_teval. now apply ctx_phrase.
+Qed.
+
+Lemma scal_rlv ss : scal (map render_literal_value ss) ss.
+Proof. induction ss as [|v ss IH]; constructor; [now destruct v|exact IH]. Qed.
+Lemma static_rlv ss : forallb static (items (map render_literal_value ss)) = true.
+Proof.
+  unfold items. apply static_join; [reflexivity|]. apply Forall_forall. intros it Hit.
+  apply in_map_iff in Hit as (t & <- & Ht). apply in_map_iff in Ht as (v & <- & _). now destruct v.
+Qed.
+
+Theorem literal_correct_guarded d p e vals row :
+  consistent e = true -> wf e vals = true -> empty_ok d e vals = true -> literal_guard d e vals = true ->
+  exists ts, compile_literal_stmt d p e vals = Ok ts /\
+    exec_literal row ts = EOk (ctx_value p row (expected e.(ie_op) (lhs_vals row e.(ie_left)) (map value_row vals))).
+Proof.
+  intros Hc Hwf He Hg.
+  pose proof (wf_lhs_ok e vals Hwf) as Hl.
+  rewrite literal_stmt_form.
+  unfold literal_guard in Hg. apply andb_true_iff in Hg as [Hg1 Hg2].
+  apply negb_true_iff in Hg1. apply negb_true_iff in Hg2.
+  destruct vals as [|v0 vals'].
+  - (* empty *)
+    unfold empty_ok in He.
+    destruct (visit_empty_set_op_expr d (type_count (ie_bind e)) (bp_expand_op (ie_bind e))) as [E|] eqn:HE; [|discriminate].
+    destruct (wf_empty_arity e row Hwf) as [Hk HX].
+    assert (Hrepl : leep_literal d (ie_bind e) [] = Ok E).
+    { unfold leep_literal. cbn [is_nil andb] in Hg1. rewrite andb_true_r in Hg1.
+      destruct (is_tuple_type (ie_bind e)) eqn:Et.
+      - cbn [andb] in Hg1. rewrite HE, Hg1. reflexivity.
+      - replace 1%nat with (type_count (ie_bind e)); [exact HE|].
+        unfold type_count, is_tuple_type in *. now destruct (bp_kind (ie_bind e)). }
+    rewrite Hrepl. cbn [bind]. eexists. split; [reflexivity|].
+    apply exec_literal_from_pred; [eapply empty_op_static; eauto|].
+    now apply (empty_pred d e row E).
+  - set (vals := v0 :: vals') in *.
+    destruct (wf_shape e vals Hwf) as [(Hs & HX & Hb & _)|(k & Ht & Hk & HX & Hb & _)].
+    + (* scalars *)
+      set (ss := map (fun v => match v with VScalar s => s | VTuple _ => SNull end) vals).
+      assert (Hrepl : leep_literal d (ie_bind e) vals = Ok (items (map render_literal_value ss))).
+      { unfold leep_literal. unfold vals at 1. fold vals. rewrite Hb. rewrite (all_scalar_ok vals Hs). cbn [bind].
+        fold ss. unfold items. now rewrite (map_map render_literal_value). }
+      rewrite Hrepl. cbn [bind]. eexists. split; [reflexivity|].
+      apply exec_literal_from_pred; [apply static_rlv|].
+      rewrite (all_scalar_rows vals Hs). fold ss. rewrite <- expected_sem.
+      apply (regular_pred e row _ 1%nat (map (fun v => [v]) ss) Hl).
+      * intros rest. apply p_inbody_items; [apply scal_rlv|]. unfold ss, vals. cbn [map]. discriminate.
+      * unfold rows_ok. rewrite lhs_len_indep, HX. cbn [Nat.eqb andb].
+        apply forallb_forall. intros r Hr. apply in_map_iff in Hr as (v & <- & _). reflexivity.
+    + (* tuples *)
+      specialize (Hb ltac:(discriminate)). rewrite Hb, andb_true_r in Hg2.
+      set (ts := map value_row vals).
+      pose proof (all_tuple_len k vals Ht) as Hlen. fold ts in Hlen.
+      assert (Hkind : bp_kind (ie_bind e) = KTuple k).
+      { unfold wf in Hwf. unfold is_null_type in Hg2. unfold tuple_branch, is_tuple_type, is_null_type in Hb.
+        destruct (ie_left e) as [c|cs]; destruct (bp_kind (ie_bind e)) as [|k'|]; try discriminate.
+        apply andb_true_iff in Hwf as [Hwf _]. apply andb_true_iff in Hwf as [H1 _]. apply Nat.eqb_eq in H1.
+        rewrite lhs_vals_length in HX. congruence. }
+      set (body := (if d_tuple_in_values d then [TValues] else [])
+                   ++ join [TComma] (map row_toks (map (map render_literal_value) ts))).
+      assert (Hrepl : leep_literal d (ie_bind e) vals = Ok body).
+      { unfold leep_literal. unfold vals at 1. fold vals. rewrite Hb, Hkind. rewrite (all_tuple_ok k vals Ht). cbn [bind].
+        fold ts. unfold body. f_equal. f_equal. f_equal. rewrite map_map. apply map_ext_in. intros te Hte.
+        rewrite Forall_forall in Hlen. rewrite <- (Hlen te Hte), firstn_all.
+        unfold row_toks, items. cbn [app]. now rewrite map_map. }
+      rewrite Hrepl. cbn [bind]. eexists. split; [reflexivity|].
+      apply exec_literal_from_pred.
+      * unfold body. rewrite forallb_app. apply andb_true_iff. split; [now destruct (d_tuple_in_values d)|].
+        apply static_join; [reflexivity|]. apply Forall_forall. intros it Hit.
+        apply in_map_iff in Hit as (r & <- & Hr). apply in_map_iff in Hr as (te & <- & _).
+        unfold row_toks. cbn [forallb static andb]. rewrite forallb_app, static_rlv. reflexivity.
+      * rewrite <- expected_sem. apply (regular_pred e row body k ts Hl).
+        -- intros rest. unfold body. rewrite <- app_assoc.
+           rewrite (p_inbody_rows (d_tuple_in_values d) (map (map render_literal_value) ts) ts rest).
+           ++ f_equal. f_equal. f_equal. unfold ts, vals. cbn [map hd]. inversion Hlen; subst. assumption.
+           ++ clear. induction ts; cbn [map]; constructor; [apply scal_rlv|assumption].
+           ++ apply Forall_forall. intros t Hin. apply in_map_iff in Hin as (te & <- & Hte).
+              rewrite Forall_forall in Hlen. specialize (Hlen te Hte). destruct te; [cbn in Hlen; lia|discriminate].
+           ++ unfold ts, vals. cbn [map]. discriminate.
+        -- apply rows_ok_tuples; [now rewrite lhs_len_indep|exact Hlen].
+Qed.
